@@ -67,7 +67,9 @@ def nontrivial(items, res):
 
 def alphabet(tier):
     from mc.props import c04
-    return c04.alphabet(tier) + progs.instantiate(progs.pick(progs.NEGARITH, 'liNeg') + (progs.pick(progs.NEGARITH, 'liNeg9') if tier == 'thorough' else []), ['A'])
+    # + odd-sized data (the pessimistic position and the real address then differ in parity behind an align)
+    return c04.alphabet(tier) + progs.instantiate(progs.pick(progs.NEGARITH, 'liNeg') + progs.pick(progs.DATA, 'db', 'str') +
+                                                   (progs.pick(progs.NEGARITH, 'liNeg9') if tier == 'thorough' else []), ['A'])
 
 
 def depth(tier):
@@ -180,12 +182,57 @@ def s2_programs(task):
         yield PRELUDE + space(task['tier'])[task['lo']:task['hi']]
 
 
+def multifile_case(ctx, case):
+    """the same literal lines spread over an include tree: eligibility must not depend on the file / line number a line sits in"""
+    import os
+    from mc import trees
+    asm = kernel.boot()
+    base = trees.fresh_dir(os.path.join(kernel.scratch('_c20'), 'mf'))
+    sp = space('quick')
+    comp = [it for it in sp if it['k'] in ('inst', 'li') and it['text'].split()[0] in ('li', 'mv', 'jr', 'ret', 'nop', 'addi', 'lw', 'sw')][case['lo']:case['lo'] + case['n']]
+    plain = [progs.I('lw', rd=5, rs1=6, imm=0), progs.I('sw', rs1=6, rs2=5, imm=4), progs.I('add', rd=5, rs1=6, rs2=7), progs.I('mul', rd=8, rs1=8, rs2=9), progs.I('lui', rd=5, imm=0x12345)]
+    main_items = [plain[i % len(plain)] for i in range(case['n'])]
+    shapes = {'lib-first': (['include lib.asm'] + [i['text'] for i in main_items], comp + main_items),
+              'lib-last': ([i['text'] for i in main_items] + ['include lib.asm'], main_items + comp),
+              'lib-middle': ([i['text'] for i in main_items[:2]] + ['include lib.asm'] + [i['text'] for i in main_items[2:]], main_items[:2] + comp + main_items[2:])}
+    lines, items = shapes[case['shape']]
+    with open(os.path.join(base, 'lib.asm'), 'w') as f:
+        f.write('\n'.join(i['text'] for i in comp) + '\n')
+    with open(os.path.join(base, 'main.asm'), 'w') as f:
+        f.write('\n'.join(lines) + '\n')
+    res = {}
+    for c in (False, True):
+        r = progs.assemble(asm, os.path.join(base, 'main.asm'), c)
+        if r.status == 'ok':
+            r.walk = L.walk(items, r.out, c)
+        res[c] = r
+    ctx.count('extra_states')
+    ctx.count('extra_transitions', 2)
+    if all(r.status == 'ok' for r in res.values()):
+        ctx.count('extra_traces', 2)
+        ctx.count('extra_nontrivial')
+    judge(ctx, items, res, 'multifile_case', case)
+
+
+def multifile_task(ctx, cases):
+    for c in cases:
+        multifile_case(ctx, c)
+    ctx.sample(dict(driver='multifile', case=cases[0]), cap=1)
+
+
+def extra(tier, merged):
+    n = len([it for it in space('quick') if it['k'] in ('inst', 'li') and it['text'].split()[0] in ('li', 'mv', 'jr', 'ret', 'nop', 'addi', 'lw', 'sw')])
+    step = 400 if tier == 'quick' else 60
+    cases = [dict(lo=lo, n=k, shape=sh) for lo in range(0, n, step) for k in (1, 3, 8) for sh in ('lib-first', 'lib-last', 'lib-middle')]
+    kernel.explore(multifile_task, list(kernel.chunks(cases, 12)), merged=merged)
+
+
 def describe(tier):
-    return ('eligibility: %d literal instructions / pseudo-instructions in batches of 256 against the derived relation E (%d words); growth: all closed programs of <= %d lines '
+    return ('eligibility: %d literal instructions / pseudo-instructions in batches of 256 against the derived relation E (%d words), a sub-set again spread over an include tree (same line numbers in two files); growth: all closed programs of <= %d lines '
             'over the alphabet%s' % (len(space(tier)), len(rv32.eligible_words()), depth(tier), ' and the span programs of C03' if tier == 'thorough' else ''))
 
 
-DRIVERS = {'prog_case': layoutrun.prog_case(__name__)}
+DRIVERS = {'prog_case': layoutrun.prog_case(__name__), 'multifile_case': multifile_case}
 
 
 def run(tier, seed, t0):
